@@ -50,6 +50,7 @@ impl std::error::Error for TryRecvError {}
 pub struct RecvError;
 
 pub fn unbounded<T>() -> (Sender<T>, Receiver<T>) {
+    let _rt = crate::RtGuard::new();
     let i = Arc::new(Inner { id: crate::new_obj(), q: UnsafeCell::new(VecDeque::new()), senders: Cell::new(1), receivers: Cell::new(1) });
     (Sender(i.clone()), Receiver(i))
 }
@@ -66,6 +67,7 @@ impl<T> std::fmt::Debug for Receiver<T> {
 
 /// Run `f` with the runtime lock held (or alone, outside a run).
 fn locked<R>(f: impl FnOnce(Option<&mut crate::Ctx>) -> R) -> R {
+    let _rt = crate::RtGuard::new();
     match enter() {
         Mode::Sim(mut c) => f(Some(&mut c)),
         // Outside a run there is one thread; in teardown threads are unwound one at a time.
@@ -75,6 +77,7 @@ fn locked<R>(f: impl FnOnce(Option<&mut crate::Ctx>) -> R) -> R {
 
 impl<T> Sender<T> {
     pub fn send(&self, t: T) -> Result<(), SendError<T>> {
+        let _rt = crate::RtGuard::new();
         yield_point("send");
         locked(|c| {
             if self.0.receivers.get() == 0 {
@@ -91,20 +94,24 @@ impl<T> Sender<T> {
         })
     }
     pub fn len(&self) -> usize {
+        let _rt = crate::RtGuard::new();
         locked(|_| unsafe { (*self.0.q.get()).len() })
     }
     pub fn is_empty(&self) -> bool {
+        let _rt = crate::RtGuard::new();
         self.len() == 0
     }
 }
 impl<T> Clone for Sender<T> {
     fn clone(&self) -> Self {
+        let _rt = crate::RtGuard::new();
         locked(|_| self.0.senders.set(self.0.senders.get() + 1));
         Sender(self.0.clone())
     }
 }
 impl<T> Drop for Sender<T> {
     fn drop(&mut self) {
+        let _rt = crate::RtGuard::new();
         locked(|c| {
             self.0.senders.set(self.0.senders.get() - 1);
             if self.0.senders.get() == 0 {
@@ -118,12 +125,14 @@ impl<T> Drop for Sender<T> {
 }
 impl<T> Clone for Receiver<T> {
     fn clone(&self) -> Self {
+        let _rt = crate::RtGuard::new();
         locked(|_| self.0.receivers.set(self.0.receivers.get() + 1));
         Receiver(self.0.clone())
     }
 }
 impl<T> Drop for Receiver<T> {
     fn drop(&mut self) {
+        let _rt = crate::RtGuard::new();
         let q = locked(|_| {
             self.0.receivers.set(self.0.receivers.get() - 1);
             if self.0.receivers.get() == 0 {
@@ -138,6 +147,7 @@ impl<T> Drop for Receiver<T> {
 }
 impl<T> Receiver<T> {
     pub fn try_recv(&self) -> Result<T, TryRecvError> {
+        let _rt = crate::RtGuard::new();
         yield_point("try_recv");
         locked(|c| match unsafe { (*self.0.q.get()).pop_front() } {
             Some(t) => {
@@ -156,6 +166,7 @@ impl<T> Receiver<T> {
         })
     }
     pub fn recv(&self) -> Result<T, RecvError> {
+        let _rt = crate::RtGuard::new();
         yield_point("recv");
         loop {
             match enter() {
@@ -176,9 +187,11 @@ impl<T> Receiver<T> {
         }
     }
     pub fn len(&self) -> usize {
+        let _rt = crate::RtGuard::new();
         locked(|_| unsafe { (*self.0.q.get()).len() })
     }
     pub fn is_empty(&self) -> bool {
+        let _rt = crate::RtGuard::new();
         self.len() == 0
     }
     /// (non-empty, disconnected) — must be called with the runtime lock held
@@ -213,12 +226,14 @@ impl<'a> Select<'a> {
         Select { rs: vec![] }
     }
     pub fn recv<T>(&mut self, r: &'a Receiver<T>) -> usize {
+        let _rt = crate::RtGuard::new();
         self.rs.push(r);
         self.rs.len() - 1
     }
     /// Blocks until one of the registered operations is ready (non-empty or disconnected) and
     /// returns its index; if several are ready, one of them is chosen by the scheduler stream.
     pub fn ready(&mut self) -> usize {
+        let _rt = crate::RtGuard::new();
         yield_point("select.ready");
         loop {
             match enter() {
